@@ -223,6 +223,27 @@ func cmdCheck(args []string) int {
 		defer os.RemoveAll(dir)
 	}
 	results := v.solveAll(obls, dir, *timeout, 6)
+	// second chance for undecided obligations: the first pass runs many solver processes at once, so an answer that needs a
+	// few seconds alone can miss the timeout under load. Undecided ones are re-run two at a time with three times the budget;
+	// only what is still undecided then is reported.
+	var retry []int
+	for i, r := range results {
+		if r.Status == "unknown" && !r.Obl.ExpSat && r.Obl.Static == "" {
+			retry = append(retry, i)
+		}
+	}
+	if len(retry) > 0 && len(retry) <= 40 {
+		var ro []*Obligation
+		for _, i := range retry {
+			ro = append(ro, results[i].Obl)
+		}
+		rr := v.solveAll(ro, dir, *timeout*3, 2)
+		for k, i := range retry {
+			rr[k].Secs += results[i].Secs
+			rr[k].Tried = append(append([]string{}, results[i].Tried...), append([]string{"retry:"}, rr[k].Tried...)...)
+			results[i] = rr[k]
+		}
+	}
 
 	reg := loadRegistry(*verifDir)
 	known := loadKnown(filepath.Join(*verifDir, "known_findings.txt"))
